@@ -72,7 +72,7 @@ func (c *ChildExec) Exec(line string) string {
 			return "crash"
 		}
 		return r.s
-	case <-time.After(20 * time.Second):
+	case <-time.After(60 * time.Second):
 		c.kill()
 		c.start()
 		return "timeout"
